@@ -11,6 +11,22 @@ SPIDEV = "adafruit_bus_device.SPIDevice / digitalio.DigitalInOut: assumed to fra
 NOT_APPLICABLE = {}
 
 PROPERTIES = {
+    "C01": {
+        "level_text": "write() is proved, for every buffer length and content (unbounded, bytes and bytearray), every static length/dynamic setting and every radio state satisfying Inv, to raise ValueError with no SPI frame and no state change exactly for empty/oversize dynamic payloads and otherwise to load exactly one W_TX_PAYLOAD(_NOACK) frame carrying exactly the documented payload (unchanged, or zero-padded/truncated to the static length), to return False without loading when the TX FIFO is full, and never to modify the caller's buffer; any()/read() are proved to return and pop exactly the head payload (spec/c10.py); the four SPI primitives and SPIDevCtx.write_readinto are proved to frame exactly one CSN transaction with the bytes given.",
+        "level_note": "Assumes A-HW and Inv. The over-the-air step (A-AIR: a loaded payload is pushed once, in order, into the FIFO of the listening peer's matching pipe) is assumed, so 'exactly once, in order, attributed to the pipe' is the composition of write's and read's contracts over the shared FIFO-slot representation, not a proved multi-radio theorem; send()'s waiting loop is C02's subject.",
+        "modules": ["spec.c01", "spec.c10"],
+        "level": "proof",
+        "trusted_base": [ENGINE, A_HW, A_INT, A_SEP, SPIDEV, "A-AIR (medium) assumed for the two-radio composition", "spidev.SpiDev.xfer2 assumed to clock one CSN frame (spec/hw.py SpiDevStub)"],
+        "assumptions": [A_HW, A_INT, A_SEP, SPIDEV, "A-AIR: delivery between two radios is assumed, not modelled", "A-LEN: symbolic buffer lengths below 2^20"],
+    },
+    "C10": {
+        "level_text": "update/available/any/read/pipe/tx_full/irq_*/clear_status_flags/flush_*/fifo/last_tx_arc/rpd are each proved to refine a reference written on A-HW's ghost FIFOs and latches, from an arbitrary radio state (0..3 payloads per FIFO, any pipes/widths/latches): read() returns and pops exactly the head and clears only RX_DR, clear_status_flags clears exactly the requested latches, flush_* empty exactly their FIFO, fifo() gives the documented answers; after interrupt_config the IRQ function of A-HW asserts for exactly the enabled events.",
+        "level_note": "Assumes A-HW and Inv; read(length) is covered for length None and 1..32 with the whole-payload pop of the model (partial reads that leave a payload in the FIFO are outside A-HW).",
+        "modules": ["spec.c10"],
+        "level": "proof",
+        "trusted_base": [ENGINE, A_HW, A_INT, SPIDEV, "SPI primitives inlined into each caller"],
+        "assumptions": [A_HW, A_INT, SPIDEV, "read(length) with an explicit length pops the head payload as a whole (A-HW model); partial reads are not modelled"],
+    },
     "C06": {
         "level_text": "FrameQueueFrag.enqueue is proved to preserve the reassembly invariant R (the cache is empty or is exactly the first nxt fragments of one sent message; nothing is appended to the queue except the complete original message when its LAST fragment arrives in sequence) for an arbitrary incoming fragment frag(m,k) of an arbitrary sent message -- one inductive step that covers every loss/duplication/reordering/interleaving pattern, with message lengths, contents, senders and ids symbolic and unbounded. The cache is proved empty after completion (no second delivery through a duplicated LAST) and at construction.",
         "level_note": "A-ID (two distinct in-flight messages to one node differ in (from_node, frame_id)); queue lengths 0..2 in the pre-state of the step (the step only appends); known finding D4a excluded by its `when` predicate; re-transmission of a whole message (FIRST..LAST again) after the application read it is delivered again by design of the protocol and is outside the claim.",
